@@ -817,8 +817,9 @@ def c10_polarity(R):
         fn = tree.func(mh.path, f"ConcreteHandlerMixin.{name}")
         Fm = util.Frags(fn)
         Fm.has("c = self._concrete_value(e)")
-        rets = [Fm.canon(r) for r in _ret_expr(fn)]
-        R.check(rets and rets[0] == want, mh, fn, f"ConcreteHandlerMixin.{name}: concrete value -> {want}",
+        # the answer for a concrete value is the return that does not delegate to the next layer
+        rets = [Fm.canon(r) for r in _ret_expr(fn) if not any(isinstance(c, ast.Call) and util.is_super_call(c) for c in ast.walk(r))]
+        R.check(len(rets) >= 1 and all(r == want for r in rets), mh, fn, f"ConcreteHandlerMixin.{name}: concrete value -> {want}",
                 f"ConcreteHandlerMixin.{name} answers `{rets[0] if rets else None}` for a concrete value")
     mbc = tree.mod("claripy/algorithm/bool_check.py")
     for name in ("is_true", "is_false"):
